@@ -550,12 +550,21 @@ class Balancer:
             return truism
         shift_amount = shift_amount_values[0]
 
+        if not 0 < shift_amount < len(expr) or truism.op in {"SLT", "SLE", "SGT", "SGE"}:
+            # (a signed comparison also depends on the bit that the shift moves into the sign position)
+            return truism
+
+        # the bits shifted out must be known to be zero, otherwise (expr << n) says nothing about them
+        expr_upper = claripy.Extract(len(expr) - 1, len(expr) - shift_amount, expr)
+        if not claripy.backends.vsa.is_true(expr_upper == 0):
+            return truism
+
         rhs_lower = claripy.Extract(shift_amount - 1, 0, rhs)
         rhs_lower_values = claripy.backends.vsa.eval(rhs_lower, 2)
         if len(rhs_lower_values) == 1 and rhs_lower_values[0] == 0:
             # we can remove the __lshift__
 
-            return Bool(truism.op, (expr, rhs >> shift_amount))
+            return Bool(truism.op, (expr, claripy.LShR(rhs, shift_amount)))
 
         return truism
 
